@@ -164,8 +164,34 @@ class C10(Prop):
                 r.update(kind="str", n_bins=case["n_bins"], feature=case["feature"])
                 if case.get("enum") is not None:
                     r["enum"] = case["enum"]
+            if case["with_pd"] and not reqs:
+                pdreq = self.pd_request(case)
+                if pdreq is not None:
+                    r["pd"] = pdreq
             reqs.append(r)
         return reqs
+
+    def pd_request(self, case):
+        """the model's partial_dependence column (marginalPD) for the first prediction column"""
+        n = len(case["y"])
+        if case["fkind"] == "numeric":
+            fv = fvalues(case)
+            if any(v is not None and isinstance(v, float) and math.isinf(v) for v in fv):
+                return None  # an infinite bin mean makes the predict function return inf / NaN
+            if case["kind"] == "float32_nan":
+                return None  # float32 feature column: the bin means shown to the predict function are float32
+            col0 = [Fraction(0) if (v is None or (isinstance(v, float) and math.isnan(v))) else Fraction(v) for v in fv]
+            req = {"cat": False}
+        else:
+            col0 = [Fraction(cat_value(v)) for v in case["feature"]]
+            req = {"cat": True, "keyvals": {v: enc(Fraction(cat_value(v))) for v in set(case["feature"]) if v is not None}}
+        req.update(X=[[enc(a), enc(Fraction(b))] for a, b in zip(col0, case["other"])], a=enc(Fraction(case["a"])), b=enc(Fraction(case["b"])),
+                   c=enc(Fraction(case["c"])))
+        if case["w"] is not None:
+            req["w"] = enc_list(Fraction(v) for v in case["w"])
+        if case["n_max"] < n:
+            req["sub"] = [int(i) for i in np.random.default_rng(case["seed"]).choice(n, size=case["n_max"], replace=False)]
+        return req
 
     def compare(self, case, io, mos):
         if "err" in io:
@@ -215,6 +241,15 @@ class C10(Prop):
                     return f"row {k}: label {a['f']!r} vs model {b['key']!r}"
                 if (a["pd"] is None) != (b["key"] is not None and b["key"] == mo.get("pooled")) and case["with_pd"]:
                     return f"row {k} ({a['f']!r}): partial dependence {a['pd']!r} but model says pooled label is {mo.get('pooled')!r}"
+            if mo.get("pd") is not None and case["with_pd"]:
+                mp = mo["pd"][k]
+                if (a["pd"] is None) != (mp is None):
+                    return f"row {k} ({a['f']!r}): partial dependence {a['pd']!r} vs model {mp!r}"
+                if mp is not None and not (case["fkind"] == "numeric" and b["key"] is None):
+                    self.pd_compared = getattr(self, "pd_compared", 0) + 1
+                    ref = float(dec(mp))
+                    if not (isinstance(a["pd"], float) and abs(a["pd"] - ref) <= 1e-9 * max(1.0, abs(ref), self.pd_scale(case))):
+                        return f"row {k} ({a['f']!r}): partial dependence {a['pd']!r} vs model {ref!r}"
             if a["count"] != b["count"]:
                 return f"row {k}: count {a['count']} vs {b['count']}"
             if not feq(a["weights"], float(dec(b["weights"]))):
@@ -227,6 +262,13 @@ class C10(Prop):
                 if not (feq(a[nm], se) or abs(a[nm] - se) < 1e-12):
                     return f"row {k}: {nm} stderr {a[nm]!r} vs {se!r}"
         return None
+
+    @staticmethod
+    def pd_scale(case):
+        """magnitude of the terms averaged by the predict function (tolerances are relative to it)"""
+        xs = [abs(float(v)) for v in case["feature"] if isinstance(v, (int, float)) and not isinstance(v, bool) and math.isfinite(float(v))] or [1.0]
+        o = max(abs(v) for v in case["other"]) or 1.0
+        return (abs(case["a"]) * max(xs) * o + abs(case["b"]) * o * o + abs(case["c"]) * max(xs) + 12 * o)
 
     def oracle(self, case, io):
         if "err" in io:
@@ -329,7 +371,7 @@ class C10(Prop):
         return None
 
     def extra_coverage(self):
-        return {"edge_ties_skipped": getattr(self, "edge_ties_skipped", 0)}
+        return {"edge_ties_skipped": getattr(self, "edge_ties_skipped", 0), "pd_values_compared_with_model": getattr(self, "pd_compared", 0)}
 
     def nontrivial(self, case, io):
         if "rows" not in io or len(io["rows"]) < 2:
